@@ -45,7 +45,8 @@ class SatCacheMixin:
 
         cached_satness = None
         if len(added) > 0:
-            if any(c is false() for c in added):
+            if any(c.op == "BoolV" and c.args[0] is False for c in added):
+                # (a false that carries an annotation is another object than false())
                 cached_satness = False
             elif len(added) == 1 and len(self.constraints) < 5:
                 added_ = added[0]
